@@ -400,6 +400,7 @@ def build(spec: dict, **driver_kwargs):
     seed = spec.get("seed", 1)
     T = spec.get("T", 300.0)
     cycles = spec.get("cycles", 2)
+    cyc = {} if cycles == "default" else {"max_cycles": cycles}  # "default": the driver's own (one cycle per atom at construction)
     kw = dict(seed=seed, **driver_kwargs)
     cache: dict = {}
     if spec.get("share_label_arrays"):
@@ -424,19 +425,19 @@ def build(spec: dict, **driver_kwargs):
                 e["name"] = slots[t]
                 prebuilt[slots[t]] = mv
     if d == "MonteCarlo":
-        mc = MonteCarlo(atoms, max_cycles=cycles, **kw)
+        mc = MonteCarlo(atoms, **cyc, **kw)
     elif d == "Canonical":
-        mc = Canonical(atoms, temperature=T, max_cycles=cycles, **kw)
+        mc = Canonical(atoms, temperature=T, **cyc, **kw)
     elif d == "HamiltonianCanonical":
-        mc = HamiltonianCanonical(atoms, temperature=T, max_cycles=cycles, **kw)
+        mc = HamiltonianCanonical(atoms, temperature=T, **cyc, **kw)
     elif d == "Isobaric":
-        mc = Isobaric(atoms, temperature=T, pressure=spec.get("P", 0.001), max_cycles=cycles, **kw)
+        mc = Isobaric(atoms, temperature=T, pressure=spec.get("P", 0.001), **cyc, **kw)
     elif d == "Isotension":
         S = spec.get("S")
-        mc = Isotension(atoms, temperature=T, pressure=spec.get("P", 0.001), external_stress=None if S is None else np.array(S), max_cycles=cycles, **kw)
+        mc = Isotension(atoms, temperature=T, pressure=spec.get("P", 0.001), external_stress=None if S is None else np.array(S), **cyc, **kw)
     elif d == "GrandCanonical":
         species = molecule_template(spec.get("species", 1), spec.get("species_symbol"))
-        mc = GrandCanonical(atoms, exchange_atoms=species, temperature=T, chemical_potential=spec.get("mu", -0.1), number_of_exchange_particles=spec.get("nexch", int(len(np.unique(labels[labels >= 0])))), max_cycles=cycles, **kw)
+        mc = GrandCanonical(atoms, exchange_atoms=species, temperature=T, chemical_potential=spec.get("mu", -0.1), number_of_exchange_particles=spec.get("nexch", int(len(np.unique(labels[labels >= 0])))), **cyc, **kw)
     elif d == "ForceBias":
         mc = ForceBias(atoms, delta=spec.get("delta", 0.1), temperature=T, **kw)
     elif d == "AdaptiveForceBias":
